@@ -212,6 +212,9 @@ def rule_prereq(ctx):
     C12.rule_R10(R.Retag(ctx, "C12."))
     C12.rule_R12(R.Retag(ctx, "C12."))
     C12.rule_components(R.Retag(ctx, "C12."), C12._score_tables(R.Retag(ctx, "C12.")))
+    # .. and every component of the signature takes part in the distance (two bundled signatures that differ only in a component the
+    # sum forgot are one entry for the matcher: the later one is unreachable)
+    C12.rule_R5(R.Retag(ctx, "C12."))
     # signatures are loaded under the tokens the extractor prints (C06.R1/R2), and a matcher exists whenever its protocol and matching are enabled (C20.R5)
     from . import C06, C20
     C06.rule_R1_R2(R.Retag(ctx, "C06."))
